@@ -10,8 +10,8 @@ from .. import callrun, gen, core
 import os
 
 
-def signatures():
-    """inspect.signature of every client method of the emitted carrier (sync and asyncio)."""
+def signatures(ppd=False):
+    """inspect.signature of every client method of the emitted carrier (sync and asyncio); ppd: option proto-plus-deps."""
     import json, subprocess
     names = [m['snake'] for m in callrun.METHODS.values()]
     api = callrun.carrier_api()
@@ -26,12 +26,7 @@ for cls in (mod.ThingsClient, mod.ThingsAsyncClient):
 print(json.dumps(out))
 '''
     with gen.scratch() as work:
-        req, res = gen.generate_api(api, dict(transport=['grpc', 'rest'], snippets=False), work)
-        root = gen.materialise(res, os.path.join(work, 'out'))
-        from .. import pipeline
-        for fdp in req.proto_file:
-            if fdp.name.startswith('other/'):
-                pipeline.write_pb2(fdp, root)
+        api, root = callrun.materialise_carrier(work, ppd=ppd)
         e = dict(os.environ); e['PYTHONPATH'] = root
         r = subprocess.run([gen.PY, '-W', 'ignore', '-c', code, callrun.MODULE, json.dumps(names)], capture_output=True, text=True, env=e, cwd=root)
         if r.returncode:
@@ -54,6 +49,45 @@ def param_order(chk, got, dep_enum):
                 chk.violation(k, f'parameters {got.get(cls + "." + callrun.METHODS[m]["snake"])} != declared order {want}')
 
 
+def proto_plus_deps_run(chk):
+    """the same property with option proto-plus-deps=other.dep.v1: the dependency-package request of CheckDep is then a proto-plus
+    type of a second generated library.  Which of its non-primitive signature entries (enum `kind`, map `labels`) the clients
+    offer as keywords is read off inspect.signature (today: none); whatever is offered must work like any other keyword and
+    sync and asyncio clients must offer the same."""
+    got = signatures(ppd=True)
+    offered = {cls: [p for p in got.get(f'{cls}.check_dep', []) if p in ('kind', 'labels')] for cls in ('ThingsClient', 'ThingsAsyncClient')}
+    chk.case('ppd:signature:dep-extras-offered', nontrivial=True)
+    if offered['ThingsClient'] != offered['ThingsAsyncClient']:
+        chk.violation('ppd:signature:dep-extras-offered:sync-async-differ',
+                      f'[proto-plus-deps] sync and asyncio clients disagree on the flattened parameters of check_dep: {offered}')
+    extras = set(offered['ThingsClient']) | set(offered['ThingsAsyncClient'])
+    cases, _ = callrun.tlc.emit_cases('Call', callrun._cfg('Call.emit.small.cfg', extras), deadlock=False, timeout=1800)
+    cases = [c for c in cases if c['method'] == 'CheckDep' and c['form'] in ('kwargs', 'both', 'msg', 'dict', 'none')]
+    rnd = __import__('random').Random(chk.seed)
+    must = [c for c in cases if c['form'] == 'kwargs' and any(c['args']['kw'].get(x) for x in extras)]
+    rest = [c for c in cases if c not in must]
+    cases = must[:150] + rnd.sample(rest, min(len(rest), 250))
+    pairs = callrun.run(chk, cases, nshards=6, ppd=True)
+    traces = []
+    for c, o in pairs:
+        k = 'ppd:' + callrun.key_of(c)
+        chk.case(k, nontrivial=True)
+        if o.get('error'):
+            chk.violation(k, '[proto-plus-deps] driver error: ' + o['error'], dict(case=c, obs=o)); continue
+        d = callrun.compare(c, o)
+        if d:
+            chk.violation('replay:' + k, '[proto-plus-deps] ' + '; '.join(d[:5]), dict(case=c, obs=o))
+        traces.append((k, callrun.trace_of(c, o)))
+    accepted, rejected, runs = callrun.tlc.validate_all('CallTrace', callrun._cfg('CallTrace.cfg', extras), [t for _, t in traces], timeout=1500)
+    for r in runs:
+        chk.states += r.distinct; chk.transitions += r.generated
+    chk.tlc_runs.append(dict(label='CallTrace batch (C05, proto-plus-deps)', runs=len(runs), accepted=accepted, rejected=len(rejected)))
+    chk.traces += accepted
+    for idx, t, info in rejected:
+        chk.violation('trace:' + traces[idx][0], f'CallTrace rejected the recorded call (proto-plus-deps): {info}', dict(trace=t, info=info))
+    chk.extra['proto_plus_deps_extras_offered'] = sorted(extras)
+
+
 def main(chk, args):
     quick = chk.tier == 'quick'
     sel = lambda c: c['form'] in ('kwargs', 'both') or (c['form'] == 'msg' and c['method'] in ('UpdateThing', 'CheckDep') and not c['cs'])
@@ -73,6 +107,7 @@ def main(chk, args):
         cases += extra[:60]
     callrun.check(chk, cases, 'C05', dep_enum=dep_enum)
     param_order(chk, got, dep_enum)
+    proto_plus_deps_run(chk)
     chk.extra['dependency_request_enum_offered_as_keyword'] = dep_enum
     chk.rule = ('cases = final states of Call.tla with form kwargs (all non-empty subsets <=2 of the flattened fields x 2 values) or both '
                 '(request + kwargs), on sync, asyncio and REST clients, plus request-form calls of the same methods; non-trivial = all; '
